@@ -1464,5 +1464,195 @@ theorem unaffectedCheck_sound {A : Aff} {st : St} (h : unaffectedCheck A st = tr
   have hi := ainvCheck_sound h1
   exact ⟨hi, ⟨hi.tree, downCheck_sound h2, stealFrontCheck_sound h3⟩, confCheck_sound h4⟩
 
+/-! ### the hypotheses persist: `on_term_key`, `on_term_mouse` as a whole -/
+
+theorem Kids.head_inA {A : Aff} {a : WinTree.Id} {rest cs0 : List WinTree.Id} (h : Kids A (a :: rest) cs0) (ha : A a = true) :
+    ∃ a0 rest0, cs0 = a0 :: rest0 ∧ A a0 = true ∧ ∀ c ∈ rest, c ∈ rest0 := by
+  generalize hcs : a :: rest = cs at h
+  cases h with
+  | nil => cases hcs
+  | keep x hk =>
+    cases hcs
+    exact ⟨a, _, rfl, ha, fun c hc => hk.mem hc⟩
+  | @drop a' _ cs0' ha' hk =>
+    subst hcs
+    exact ⟨a', cs0', rfl, ha', fun c hc => hk.mem (List.mem_cons_of_mem _ hc)⟩
+
+/-- After a dispatch (no dispatcher reference outstanding) the hypotheses hold again, of the store as it is now. -/
+theorem DInv.unaffected {A : Aff} {t0 : Tree} {st : St} (hb : Base A t0) (h : DInv A t0 [] st) : Unaffected A st := by
+  refine ⟨h.good.1, ⟨h.good.1.tree, h.sim.down, ?_⟩, ?_⟩
+  · intro p w a rest hp hw hf hc ha c hcm hAc
+    obtain ⟨w0, hw0⟩ := h.sim.back hw
+    have rel := h.sim.rel hp hw0 hw
+    have hk := rel.kids
+    rw [hc] at hk
+    obtain ⟨a0, rest0, hc0, ha0, hsub⟩ := hk.head_inA ha
+    have h0 := hb.stealFront p w0 a0 rest0 hp hw0 (by rw [← rel.freed]; exact hf) hc0 ha0 c (hsub c hcm) hAc
+    cases hcw : st.tree.wins[c]? with
+    | none => unfold stealAt; rw [hcw]
+    | some cw =>
+      have e1 := stealAt_sim h.sim hAc hcw
+      have e2 : stealAt st.tree c = cw.stealInput := by unfold stealAt; rw [hcw]
+      rw [e2, ← e1]; exact h0
+  · intro i b hbi e he a ha
+    rcases h.conf i b hbi e he a ha with hc | ⟨hact, hA, hfo⟩
+    · exact Or.inl hc
+    · obtain ⟨h1, h2, _⟩ := focusNow hb.inv h.good.1.tree h.sim hfo
+      exact Or.inr ⟨hact, hA, hfo.root, h1, h2⟩
+
+theorem Unaffected.say {A : Aff} {st : St} (h : Unaffected A st) (i : LogItem) : Unaffected A (st.say i) :=
+  ⟨⟨h.inv.tree, h.inv.drag, h.inv.size, h.inv.rc, h.inv.leaf, h.inv.held, h.inv.root, h.inv.pos⟩, h.base, h.conf⟩
+
+/-- Partial correctness: if the computation returns, the result satisfies `Q`. -/
+structure PO {α : Type} (r : Out α) (Q : α → Prop) : Prop where
+  run : ∀ a, r = Out.ok a → Q a
+structure PR {α : Type} (r : Res α) (Q : α → Prop) : Prop where
+  run : ∀ a, r = Res.ok a → Q a
+
+theorem PO.pure {α : Type} {a : α} {Q : α → Prop} (h : Q a) : PO (Pure.pure a : Out α) Q :=
+  ⟨fun b hb => by cases hb; exact h⟩
+
+theorem PR.pure {α : Type} {a : α} {Q : α → Prop} (h : Q a) : PR (Pure.pure a : Res α) Q :=
+  ⟨fun b hb => by cases hb; exact h⟩
+
+theorem PO.bind {α β : Type} {x : Out α} {f : α → Out β} {Q : α → Prop} {R : β → Prop} (hx : PO x Q)
+    (hf : ∀ a, Q a → PO (f a) R) : PO (x >>= f) R := by
+  refine ⟨fun b hb => ?_⟩
+  obtain ⟨a, ha, hfa⟩ := out_bind_eq_ok.1 hb
+  exact (hf a (hx.run a ha)).run b hfa
+
+theorem PR.bind {α β : Type} {x : Res α} {f : α → Res β} {Q : α → Prop} {R : β → Prop} (hx : PR x Q)
+    (hf : ∀ a, Q a → PR (f a) R) : PR (x >>= f) R := by
+  refine ⟨fun b hb => ?_⟩
+  obtain ⟨a, ha, hfa⟩ := res_bind_eq_ok.1 hb
+  exact (hf a (hx.run a ha)).run b hfa
+
+theorem PO.lift {α : Type} {x : Res α} {Q : α → Prop} (hx : PR x Q) : PO (liftM x : Out α) Q :=
+  ⟨fun a ha => hx.run a (lift_eq_ok.1 ha)⟩
+
+theorem PO.lbind {α β : Type} {x : Res α} {f : α → Out β} {Q : α → Prop} {R : β → Prop} (hx : PR x Q)
+    (hf : ∀ a, Q a → PO (f a) R) : PO ((liftM x : Out α) >>= f) R :=
+  PO.bind (PO.lift hx) hf
+
+theorem PR.any {α : Type} (x : Res α) : PR x (fun _ => True) := ⟨fun _ _ => trivial⟩
+
+theorem handleMouse_po {A : Aff} {t0 : Tree} (hb : Base A t0) (fuel : Nat) {st : St} {win : WinTree.Id} (ev : Ev)
+    {held : List WinTree.Id} (h : DInv A t0 held st) (hal : Alive st.tree win) :
+    PO (handleMouse Cfg.repaired fuel st win ev) (fun p => DInv A t0 (heldR p.2 held) p.1) := by
+  refine ⟨fun p hr => ?_⟩
+  obtain ⟨st', r⟩ := p
+  exact (handleMouse_sim hb fuel st win ev held st' r h hal hr).1
+
+theorem DInv.rootFields {A : Aff} {t0 : Tree} {held : List WinTree.Id} {st : St} (h : DInv A t0 held st) (r' : Root)
+    (hc : r'.changes = st.tree.root.changes) (hd : r'.dragSource = st.tree.root.dragSource) :
+    DInv A t0 held { st with tree := { st.tree with root := r' } } :=
+  ⟨h.good.rootFields r' hc hd, h.sim.trans (Sim.of_wins h.sim.down rfl), h.conf, h.own⟩
+
+theorem dropResult_po {A : Aff} {t0 : Tree} {st : St} {held : List WinTree.Id} {r : Option WinTree.Id}
+    (h : DInv A t0 (heldR r held) st) : PR (dropResult Cfg.repaired st r) (DInv A t0 held) := by
+  unfold dropResult
+  cases r with
+  | none => exact PR.pure h
+  | some x =>
+    simp only [Cfg.repaired, if_true]
+    exact ⟨fun st' hr => (DInv.release (c := x) h hr).1⟩
+
+theorem dragSourceSet_po {A : Aff} {t0 : Tree} {st : St} {held : List WinTree.Id} {src : Option WinTree.Id}
+    (h : DInv A t0 (heldR src held) st) : PR (dragSourceSet Cfg.repaired st src) (DInv A t0 held) := by
+  unfold dragSourceSet
+  simp only [Cfg.repaired, Bool.not_true, Bool.false_eq_true, if_false]
+  cases src with
+  | none =>
+    refine PR.pure ⟨⟨h.good.1.rootUpdate rfl rfl (fun d hd => by simp at hd), h.good.2⟩,
+      h.sim.trans (Sim.of_wins h.sim.down rfl), h.conf, h.own⟩
+  | some s =>
+    simp only
+    have hs : Alive st.tree s := h.good.1.held s (List.mem_cons_self ..)
+    have hd : DragOK ({ st.tree with root := { st.tree.root with
+        dragSource := if isWithin st.tree (treeFuel st.tree) 0 s = true then some s else none } } : Tree) := by
+      intro d hdd
+      simp only at hdd
+      split at hdd
+      · cases hdd; exact hs
+      · cases hdd
+    have h1 : DInv A t0 (s :: held) ({ st with tree := { st.tree with root := { st.tree.root with
+        dragSource := if isWithin st.tree (treeFuel st.tree) 0 s = true then some s else none } } } : St) :=
+      ⟨⟨h.good.1.rootUpdate rfl rfl hd, h.good.2⟩, h.sim.trans (Sim.of_wins h.sim.down rfl), h.conf, h.own⟩
+    exact ⟨fun st' hr => (h1.release hr).1⟩
+
+theorem toDragSource_po {A : Aff} {t0 : Tree} (hb : Base A t0) {fuel : Nat} {st : St} {src : WinTree.Id} {type : Int} {ev : Ev}
+    {held : List WinTree.Id} (h : DInv A t0 held st) (hsrc : Alive st.tree src) :
+    PO (toDragSource Cfg.repaired fuel st src type ev) (DInv A t0 held) := by
+  unfold toDragSource
+  rw [isAlive_of_alive hsrc]
+  simp only [Bool.not_true, Bool.false_eq_true, if_false, out_pure, out_bind_ok]
+  apply PO.lbind (PR.any _)
+  intro geom _
+  apply PO.bind (handleMouse_po hb fuel _ h hsrc)
+  intro ⟨st1, r⟩ h1
+  exact PO.lift (dropResult_po h1)
+
+theorem dragStop_po {A : Aff} {t0 : Tree} (hb : Base A t0) {fuel : Nat} {st : St} {ev : Ev} {held : List WinTree.Id}
+    (h : DInv A t0 held st) : PO (dragStop Cfg.repaired fuel st ev) (DInv A t0 held) := by
+  unfold dragStop
+  cases hs : st.tree.root.dragSource with
+  | none => exact PO.pure h
+  | some src => exact toDragSource_po hb h (h.good.1.drag src hs)
+
+theorem dragOutside_po {A : Aff} {t0 : Tree} (hb : Base A t0) {fuel : Nat} {st : St} {ev : Ev} {handled : Option WinTree.Id}
+    {held : List WinTree.Id} (h : DInv A t0 held st) : PO (dragOutside Cfg.repaired fuel st ev handled) (DInv A t0 held) := by
+  unfold dragOutside
+  cases hs : st.tree.root.dragSource with
+  | none => exact PO.pure h
+  | some src =>
+    simp only
+    split
+    · exact toDragSource_po hb h (h.good.1.drag src hs)
+    · exact PO.pure h
+
+theorem dragPrelude_po {A : Aff} {t0 : Tree} (hb : Base A t0) {fuel : Nat} {st : St} {ev : Ev} (h : DInv A t0 [0] st) :
+    PO (dragPrelude Cfg.repaired fuel st ev) (DInv A t0 [0]) := by
+  have h0 : Alive st.tree 0 := h.good.1.held 0 (List.mem_cons_self ..)
+  unfold dragPrelude
+  dsimp only
+  split
+  · exact PO.pure (h.rootFields _ rfl rfl)
+  · split
+    · apply PO.bind (handleMouse_po hb fuel _ h h0)
+      intro ⟨st1, src⟩ h1
+      apply PO.lbind (dragSourceSet_po h1)
+      intro st2 h2
+      exact PO.pure (h2.rootFields _ rfl rfl)
+    · split
+      · apply PO.bind (handleMouse_po hb fuel _ h h0)
+        intro ⟨st1, dropped⟩ h1
+        apply PO.lbind (dropResult_po h1)
+        intro st2 h2
+        apply PO.bind (dragStop_po hb h2)
+        intro st3 h3
+        exact PO.pure (h3.rootFields _ rfl rfl)
+      · exact PO.pure h
+
+/-- `on_term_mouse` as a whole (all its dispatches) keeps the invariant of the delivery theorems. -/
+theorem onTermMouse_po {A : Aff} {t0 : Tree} (hb : Base A t0) (fuel : Nat) {st : St} (ev : Ev) (h : DInv A t0 [] st) :
+    PO (onTermMouse Cfg.repaired fuel st ev) (fun p => DInv A t0 [] p.1) := by
+  unfold onTermMouse
+  have h0 : Alive st.tree 0 := by
+    obtain ⟨w0, hw0, hf0, _⟩ := h.good.1.tree.root
+    exact ⟨w0, hw0, hf0⟩
+  apply PO.lbind (Q := DInv A t0 [0]) ⟨fun st0 hr => (h.ref hr).1⟩
+  intro st0 G0
+  apply PO.bind (dragPrelude_po hb G0)
+  intro st1 G1
+  apply PO.bind (handleMouse_po hb fuel ev G1 (G1.good.1.held 0 (List.mem_cons_self ..)))
+  intro ⟨st2, handled⟩ G2
+  apply PO.bind (dragOutside_po hb (handled := handled) G2)
+  intro st3 G3
+  apply PO.lbind (dropResult_po G3)
+  intro st4 G4
+  apply PO.lbind (Q := DInv A t0 []) ⟨fun st5 hr => (G4.release hr).1⟩
+  intro st5 G5
+  exact PO.pure G5
+
 end WinInput
 end Tickit
